@@ -746,7 +746,7 @@ def t2_api(ctx, r, spec, nsub, label, variants=None):
         req_types, _, _ = d.reach(listed)
         feats = features(spec, d, listed, req_types)
         ctx.case({"listed": listed, "internal": internal, "features": feats, "allowlist_size": len(al_ids)},
-                 distinct_key=["t2", json.dumps(gj, sort_keys=True)[:0] + label, json.dumps(listed), internal, json.dumps(spec, sort_keys=True)])
+                 distinct_key=["t2", json.dumps(listed), internal, json.dumps(spec, sort_keys=True)])
         ctx.count("mode", "internal" if internal else "omit")
         ctx.count("listed_rpcs", len(listed))
         for ft in feats:
@@ -1175,6 +1175,8 @@ def prefix_probe_spec(r=None):
 def run_payload(ctx, payload, r=None):
     r = r or ctx.rng("replay")
     kind = payload.get("kind", "t3")
+    if kind == "name":
+        return names_t2(ctx)
     spec = payload["spec"]
     if kind == "validate":
         validate_one(ctx, spec, payload["doc"], payload.get("want_reject", True), payload.get("key", "bad-method-accepted"), payload.get("name", "replay"))
@@ -1183,6 +1185,32 @@ def run_payload(ctx, payload, r=None):
     else:
         t2_api(ctx, r, spec, 0, "replay", variants=[(payload["listed"], payload["internal"])])
         t3_api(ctx, r, spec, 0, "replay", variants=[(payload["listed"], payload["internal"])])
+
+
+def names_t2(ctx):
+    """Method.client_method_name on keyword-like / underscore names x is_internal vs the model (pinned keyword table)"""
+    import dataclasses, keyword
+    from google.protobuf import descriptor_pb2
+    spec = prefix_probe_spec()
+    files = build_files(spec)
+    api0, _ = genrun.build_api(make_request(spec, files))
+    m0 = next(iter(next(iter(api0.services.values())).methods.values()))
+    names = [k.capitalize() for k in keyword.kwlist] + [k.upper() for k in keyword.kwlist[:8]] + list(keyword.kwlist[:6]) + \
+            ["GetBook", "List", "Print", "Match", "_Hidden", "__Dunder", "X", "Import_", "Classy", "NoneSuch", "Async", "AWAIT"]
+    cases = [(n, i) for n in names for i in (False, True)]
+    res = ctx.driver.ask([{"op": "c16.name", "name": n, "internal": i} for n, i in cases])
+    for (n, i), mo in zip(cases, res):
+        m = dataclasses.replace(m0, method_pb=descriptor_pb2.MethodDescriptorProto(name=n), is_internal=i)
+        real = m.client_method_name
+        ctx.case(None, distinct_key=["name", n, i])
+        ctx.traces += 1
+        ctx.count("client_method_name", "keyword" if real.rstrip("_").lstrip("_").lower() in keyword.kwlist and real.endswith("_") else "plain")
+        if mo.get("client_method_name") != real:
+            ctx.disagree("T2:c16.client_method_name", f"model {mo.get('client_method_name')!r} vs Method.client_method_name {real!r} for {n!r} internal={i}",
+                         {"kind": "name", "name": n, "internal": i})
+        want = ("_" if i and not n.startswith("_") else "") + n + ("_" if n.lower() in keyword.kwlist else "")
+        if real != want:
+            ctx.fail("internal-names", f"client_method_name({n!r}, internal={i}) = {real!r}, expected {want!r}", {"kind": "name", "name": n, "internal": i})
 
 
 def all_subsets(meths):
@@ -1204,6 +1232,7 @@ def run(ctx):
     ctx.assume("the operation service of an extended operation lives in the same file and its polling method does not itself start an "
                "extended operation (API.build raises otherwise: such schemas do not exist)")
     ctx.assume("RPC names are ASCII identifiers that are neither python keywords nor start with an underscore (C12's business)")
+    ctx.assume("type graphs are shallower than CPython's recursion limit (the real traversal is plain recursion; the model's fuel never runs out)")
     # ---- corpus first
     if os.path.isdir(CORPUS):
         for fn in sorted(os.listdir(CORPUS)):
@@ -1212,6 +1241,7 @@ def run(ctx):
                     blob = json.load(fh)
                 run_payload(ctx, blob.get("payload", blob), ctx.rng("corpus", fn))
                 ctx.count("corpus", fn)
+    names_t2(ctx)
     # ---- T2 at scale
     r = ctx.rng("t2")
     for a in range(ctx.n(36, 640)):
